@@ -110,8 +110,7 @@ Definition ws0 : option entry := Some (wa, PTTL_NO_EXPIRE).
 Definition to_scanning := [EvPreCheckAck; EvBlockingDone; EvDstPreSwitch; EvSrcScanning].
 
 (* DESIGN.md section 9 row 11: a deleting command that requires_blocking_migration does not list (SINTERSTORE,
-   SDIFFSTORE, ZINTERSTORE, ZUNIONSTORE with an empty result; BLPOP/BRPOP/BRPOPLPUSH/BZPOPMIN/BZPOPMAX taking the last
-   element) takes the pull path; the scanner, holding a dump of the source copy taken before, restores the key after
+   SDIFFSTORE, ZINTERSTORE, ZUNIONSTORE with an empty result) takes the pull path; the scanner, holding a dump of the source copy taken before, restores the key after
    the delete was acknowledged; a later read returns the deleted value *)
 Definition run_unclassified : list event :=
   to_scanning ++
